@@ -340,6 +340,19 @@ def run(ctx):
             nrows = rng.randint(1, 6)
             S = random_sufficient_set(system, rng)
             cols, tensors = make_table(system, rng, S, nrows, with_v=rng.random() < 0.7)
+            int_table = (ci % 4 == 1)
+            if int_table:
+                # the same invariant tensor field scaled to whole numbers and held in int64 columns (what
+                # pandas.read_table yields for a table written without decimal points)
+                from fractions import Fraction as _Fr
+                den = 1
+                for t in tensors:
+                    for x in t:
+                        den = den * _Fr(x).denominator // math.gcd(den, _Fr(x).denominator)
+                tensors = [[_Fr(x) * den for x in t] for t in tensors]
+                cols = [(l, v) if l.lower() == "v" else (l, [int(tensors[r][SYMS.index(l.lower())]) for r in range(nrows)])
+                        for l, v in cols]
+                ctx.count("integer-typed (int64) table")
             df = pandas.DataFrame(dict(cols), columns=[l for l, _ in cols])
             # row labels are the caller's business: filling works on row POSITIONS.  Present the table
             # with other indexes too (re-sorted labels, arbitrary labels, labelled by volume)
